@@ -1,227 +1,8 @@
-import SSV.Proofs.RelayLifeInv3d
-/-
-C12 helper lemmas, part 4: life cycle of the NAT socket.  It is open from the successful ListenUDP until it is closed by
-the early return that owns it or by the uplink goroutine after the send channel was closed; nobody uses it afterwards.
--/
+import SSV.Proofs.RelayLifeInv4a
+import SSV.Proofs.RelayLifeInv4b
+import SSV.Proofs.RelayLifeInv4c
 namespace SSV.RelayLife
 variable (cfg : Cfg)
-
-/-- every early return that owns the socket closes it -/
-def Cfg.closesAll (cfg : Cfg) : Bool := cfg.closeSetDl && cfg.closeNewPacker && cfg.closeSwap
-
-structure Inv4 (cfg : Cfg) (s : State) : Prop where
-  s1 : ∀ i, i < s.n → (s.ent i).ipc.idx ≤ 2 → (s.ent i).sock = false
-  s2 : ∀ i, i < s.n → 3 ≤ (s.ent i).ipc.idx → (s.ent i).ipc.idx ≤ 8 → (s.ent i).sock = true
-  s3 : ∀ i, i < s.n → (s.ent i).clean = true → (s.ent i).upc ≠ .done → (s.ent i).sock = true
-  s4 : cfg.uplinkCloses = true → ∀ i, i < s.n → (s.ent i).upc = .done → (s.ent i).sock = false
-  s5 : cfg.closesAll = true → ∀ i, i < s.n → (s.ent i).clean = false → 9 ≤ (s.ent i).ipc.idx → (s.ent i).sock = false
-  u4 : ∀ i, i < s.n → ((s.ent i).upc = .closeSock ∨ (s.ent i).upc = .done) → 11 ≤ (s.ent i).ipc.idx
-  u6 : ∀ i, i < s.n → (s.ent i).clean = true → 7 ≤ (s.ent i).ipc.idx → (s.ent i).upc ≠ .none
-
-theorem inv4_initial : Inv4 cfg State.init := by
-  constructor <;> simp [State.init]
-
-set_option hygiene false in
-macro "close_case4" : tactic => `(tactic| (
-  first
-  | (simp at h; done)
-  | (injection h with h; subst h
-     constructor <;>
-       simp_all [State.setE, State.inTab, Entry.closeIf, Entry.closeSock, Cfg.closesAll, IPc.idx, IPc.closed_t] <;>
-       grind [IPc.idx, Entry.fresh])))
-
-theorem inv4_arrive (s s' : State) (c : Nat) (h1 : Inv1 s) (ha : Inv3a s) (hd : Inv3d s) (hI : Inv4 cfg s) (h : step cfg s (.arrive c) = some s') : Inv4 cfg s' := by
-  have a7 := h1.closed
-  clear h1
-  have u2 := ha.u2
-  have u3 := ha.u3
-  clear ha
-  obtain ⟨u1⟩ := hd
-  obtain ⟨s1,s2,s3,s4,s5,u4,u6⟩ := hI
-  simp only [step] at h
-  (repeat' split at h) <;> close_case4
-
-theorem inv4_rLock (s s' : State)  (h1 : Inv1 s) (ha : Inv3a s) (hd : Inv3d s) (hI : Inv4 cfg s) (h : step cfg s (.rLock ) = some s') : Inv4 cfg s' := by
-  have a7 := h1.closed
-  clear h1
-  have u2 := ha.u2
-  have u3 := ha.u3
-  clear ha
-  obtain ⟨u1⟩ := hd
-  obtain ⟨s1,s2,s3,s4,s5,u4,u6⟩ := hI
-  simp only [step] at h
-  (repeat' split at h) <;> close_case4
-
-set_option maxHeartbeats 1600000 in
-theorem inv4_rProc (s s' : State) (ok : Bool) (h1 : Inv1 s) (ha : Inv3a s) (hd : Inv3d s) (hI : Inv4 cfg s) (h : step cfg s (.rProc ok) = some s') : Inv4 cfg s' := by
-  have a7 := h1.closed
-  clear h1
-  have u2 := ha.u2
-  have u3 := ha.u3
-  clear ha
-  obtain ⟨u1⟩ := hd
-  obtain ⟨s1,s2,s3,s4,s5,u4,u6⟩ := hI
-  simp only [step] at h
-  (repeat' split at h) <;> close_case4
-
-theorem inv4_rMore (s s' : State) (c : Nat) (h1 : Inv1 s) (ha : Inv3a s) (hd : Inv3d s) (hI : Inv4 cfg s) (h : step cfg s (.rMore c) = some s') : Inv4 cfg s' := by
-  have a7 := h1.closed
-  clear h1
-  have u2 := ha.u2
-  have u3 := ha.u3
-  clear ha
-  obtain ⟨u1⟩ := hd
-  obtain ⟨s1,s2,s3,s4,s5,u4,u6⟩ := hI
-  simp only [step] at h
-  (repeat' split at h) <;> close_case4
-
-theorem inv4_rUnlock (s s' : State)  (h1 : Inv1 s) (ha : Inv3a s) (hd : Inv3d s) (hI : Inv4 cfg s) (h : step cfg s (.rUnlock ) = some s') : Inv4 cfg s' := by
-  have a7 := h1.closed
-  clear h1
-  have u2 := ha.u2
-  have u3 := ha.u3
-  clear ha
-  obtain ⟨u1⟩ := hd
-  obtain ⟨s1,s2,s3,s4,s5,u4,u6⟩ := hI
-  simp only [step] at h
-  (repeat' split at h) <;> close_case4
-
-theorem inv4_rExit (s s' : State)  (h1 : Inv1 s) (ha : Inv3a s) (hd : Inv3d s) (hI : Inv4 cfg s) (h : step cfg s (.rExit ) = some s') : Inv4 cfg s' := by
-  have a7 := h1.closed
-  clear h1
-  have u2 := ha.u2
-  have u3 := ha.u3
-  clear ha
-  obtain ⟨u1⟩ := hd
-  obtain ⟨s1,s2,s3,s4,s5,u4,u6⟩ := hI
-  simp only [step] at h
-  (repeat' split at h) <;> close_case4
-
-set_option maxHeartbeats 1600000 in
-theorem inv4_init (s s' : State) (i : Nat) (ok : Bool) (h1 : Inv1 s) (ha : Inv3a s) (hd : Inv3d s) (hI : Inv4 cfg s) (h : step cfg s (.init i ok) = some s') : Inv4 cfg s' := by
-  have a7 := h1.closed
-  clear h1
-  have u2 := ha.u2
-  have u3 := ha.u3
-  clear ha
-  obtain ⟨u1⟩ := hd
-  obtain ⟨s1,s2,s3,s4,s5,u4,u6⟩ := hI
-  simp only [step] at h
-  (repeat' split at h) <;> close_case4
-
-theorem inv4_dTimeout (s s' : State) (i : Nat) (h1 : Inv1 s) (ha : Inv3a s) (hd : Inv3d s) (hI : Inv4 cfg s) (h : step cfg s (.dTimeout i) = some s') : Inv4 cfg s' := by
-  have a7 := h1.closed
-  clear h1
-  have u2 := ha.u2
-  have u3 := ha.u3
-  clear ha
-  obtain ⟨u1⟩ := hd
-  obtain ⟨s1,s2,s3,s4,s5,u4,u6⟩ := hI
-  simp only [step] at h
-  (repeat' split at h) <;> close_case4
-
-theorem inv4_dPacket (s s' : State) (i : Nat) (h1 : Inv1 s) (ha : Inv3a s) (hd : Inv3d s) (hI : Inv4 cfg s) (h : step cfg s (.dPacket i) = some s') : Inv4 cfg s' := by
-  have a7 := h1.closed
-  clear h1
-  have u2 := ha.u2
-  have u3 := ha.u3
-  clear ha
-  obtain ⟨u1⟩ := hd
-  obtain ⟨s1,s2,s3,s4,s5,u4,u6⟩ := hI
-  simp only [step] at h
-  (repeat' split at h) <;> close_case4
-
-theorem inv4_dSend (s s' : State) (i : Nat) (h1 : Inv1 s) (ha : Inv3a s) (hd : Inv3d s) (hI : Inv4 cfg s) (h : step cfg s (.dSend i) = some s') : Inv4 cfg s' := by
-  have a7 := h1.closed
-  clear h1
-  have u2 := ha.u2
-  have u3 := ha.u3
-  clear ha
-  obtain ⟨u1⟩ := hd
-  obtain ⟨s1,s2,s3,s4,s5,u4,u6⟩ := hI
-  simp only [step] at h
-  (repeat' split at h) <;> close_case4
-
-set_option maxHeartbeats 1600000 in
-theorem inv4_cleanup (s s' : State) (i : Nat) (h1 : Inv1 s) (ha : Inv3a s) (hd : Inv3d s) (hI : Inv4 cfg s) (h : step cfg s (.cleanup i) = some s') : Inv4 cfg s' := by
-  have a7 := h1.closed
-  clear h1
-  have u2 := ha.u2
-  have u3 := ha.u3
-  clear ha
-  obtain ⟨u1⟩ := hd
-  obtain ⟨s1,s2,s3,s4,s5,u4,u6⟩ := hI
-  simp only [step] at h
-  (repeat' split at h) <;> close_case4
-
-theorem inv4_uRecv (s s' : State) (i : Nat) (k : Nat) (h1 : Inv1 s) (ha : Inv3a s) (hd : Inv3d s) (hI : Inv4 cfg s) (h : step cfg s (.uRecv i k) = some s') : Inv4 cfg s' := by
-  have a7 := h1.closed
-  clear h1
-  have u2 := ha.u2
-  have u3 := ha.u3
-  clear ha
-  obtain ⟨u1⟩ := hd
-  obtain ⟨s1,s2,s3,s4,s5,u4,u6⟩ := hI
-  simp only [step] at h
-  (repeat' split at h) <;> close_case4
-
-set_option maxHeartbeats 1600000 in
-theorem inv4_uStep (s s' : State) (i : Nat) (h1 : Inv1 s) (ha : Inv3a s) (hd : Inv3d s) (hI : Inv4 cfg s) (h : step cfg s (.uStep i) = some s') : Inv4 cfg s' := by
-  have a7 := h1.closed
-  clear h1
-  have u2 := ha.u2
-  have u3 := ha.u3
-  clear ha
-  obtain ⟨u1⟩ := hd
-  obtain ⟨s1,s2,s3,s4,s5,u4,u6⟩ := hI
-  simp only [step] at h
-  (repeat' split at h) <;> close_case4
-
-theorem inv4_timer (s s' : State) (i : Nat) (h1 : Inv1 s) (ha : Inv3a s) (hd : Inv3d s) (hI : Inv4 cfg s) (h : step cfg s (.timer i) = some s') : Inv4 cfg s' := by
-  have a7 := h1.closed
-  clear h1
-  have u2 := ha.u2
-  have u3 := ha.u3
-  clear ha
-  obtain ⟨u1⟩ := hd
-  obtain ⟨s1,s2,s3,s4,s5,u4,u6⟩ := hI
-  simp only [step] at h
-  (repeat' split at h) <;> close_case4
-
-theorem inv4_stopCall (s s' : State)  (h1 : Inv1 s) (ha : Inv3a s) (hd : Inv3d s) (hI : Inv4 cfg s) (h : step cfg s (.stopCall ) = some s') : Inv4 cfg s' := by
-  have a7 := h1.closed
-  clear h1
-  have u2 := ha.u2
-  have u3 := ha.u3
-  clear ha
-  obtain ⟨u1⟩ := hd
-  obtain ⟨s1,s2,s3,s4,s5,u4,u6⟩ := hI
-  simp only [step] at h
-  (repeat' split at h) <;> close_case4
-
-set_option maxHeartbeats 1600000 in
-theorem inv4_stop (s s' : State)  (h1 : Inv1 s) (ha : Inv3a s) (hd : Inv3d s) (hI : Inv4 cfg s) (h : step cfg s (.stop ) = some s') : Inv4 cfg s' := by
-  have a7 := h1.closed
-  clear h1
-  have u2 := ha.u2
-  have u3 := ha.u3
-  clear ha
-  obtain ⟨u1⟩ := hd
-  obtain ⟨s1,s2,s3,s4,s5,u4,u6⟩ := hI
-  simp only [step] at h
-  (repeat' split at h) <;> close_case4
-
-set_option maxHeartbeats 1600000 in
-theorem inv4_stopVisit (s s' : State) (i : Nat) (h1 : Inv1 s) (ha : Inv3a s) (hd : Inv3d s) (hI : Inv4 cfg s) (h : step cfg s (.stopVisit i) = some s') : Inv4 cfg s' := by
-  have a7 := h1.closed
-  clear h1
-  have u2 := ha.u2
-  have u3 := ha.u3
-  clear ha
-  obtain ⟨u1⟩ := hd
-  obtain ⟨s1,s2,s3,s4,s5,u4,u6⟩ := hI
-  simp only [step] at h
-  (repeat' split at h) <;> close_case4
 
 theorem inv4_step (s s' : State) (e : Ev) (h1 : Inv1 s) (ha : Inv3a s) (hd : Inv3d s) (hI : Inv4 cfg s) (h : step cfg s e = some s') : Inv4 cfg s' := by
   cases e with
